@@ -46,6 +46,9 @@ type AScn struct {
 	// the caller's context is cancelled at this virtual instant while the scripted runs (like the UDP and TCP engines once
 	// they are reading) carry on and succeed: the request is then an error without a result, or a success with exact counts
 	CancelAtMs int `json:"cancel_at_ms,omitempty"`
+	// LateCancel: the cancellation instant lies after every run and probe has completed - only the (slow, or context-bound)
+	// public-IP lookup is still outstanding: not determining the public IP never fails the request
+	LateCancel bool `json:"late_cancel,omitempty"`
 	// DelayBounded: every departure from the default schedule costs one deviation (with Bound 0: the default schedule
 	// only) - for requests with so many calls in flight that the free orders of their threads cannot be enumerated
 	DelayBounded bool `json:"delay_bounded,omitempty"`
@@ -64,6 +67,13 @@ func (f *fetcher) GetIP(ctx context.Context) (net.IP, error) {
 	case "slow":
 		vtime.Sleep(30 * time.Second)
 		return net.ParseIP("192.0.2.200"), nil
+	case "until-context-ends":
+		if d := ctx.Done(); d != nil {
+			<-vsched.RecvCh(d)
+			return nil, ctx.Err()
+		}
+		vtime.Sleep(30 * time.Second)
+		return nil, errors.New("no public ip")
 	}
 	return nil, errors.New("no public ip")
 }
@@ -175,6 +185,9 @@ func checkA(sc *AScn, x *vsched.Exec, o *aObs) (string, string) {
 		return "horizon", ""
 	}
 	n := sc.Queries + sc.E2e
+	if sc.LateCancel && o.err != nil {
+		return "public-ip-wait-failed-the-request", fmt.Sprintf("every run and probe had succeeded when the caller's context ended (at %d ms); only the public-IP lookup was outstanding: %v", sc.CancelAtMs, o.err)
+	}
 	if sc.CancelAtMs != 0 && o.err != nil && o.res == nil {
 		return "", ""
 	}
@@ -341,6 +354,21 @@ func cancelA(tier string) []*AScn {
 	return out
 }
 
+// lateCancelA: every run and probe succeeds and is over by 400 ms; the public-IP lookup is slow (30 s) or ends only with the
+// caller's context; the context is cancelled at 1 s / 5 s: the request succeeds (with or without a public IP)
+func lateCancelA() []*AScn {
+	var out []*AScn
+	for _, qe := range [][2]int{{1, 0}, {2, 1}, {0, 2}} {
+		for _, pub := range []string{"slow", "until-context-ends"} {
+			for _, at := range []int{1000, 5000} {
+				n := qe[0] + qe[1]
+				out = append(out, &AScn{Queries: qe[0], E2e: qe[1], Bound: 0, PublicIP: pub, CancelAtMs: at, LateCancel: true, Rank: permAt(n, 0)})
+			}
+		}
+	}
+	return out
+}
+
 // manyA: more calls than any plausible in-flight limit (12 probes; 3 runs and 10 probes), all of them in flight at once
 // (they are launched a fraction of a millisecond apart and take 100 ms and more), none / the last four / every third
 // failing: exact counts and every failure exposed all the same.
@@ -385,7 +413,7 @@ func partialA(tier string) []*AScn {
 }
 
 func extraA(tier string) []*AScn {
-	return append(append(cancelA(tier), manyA(tier)...), partialA(tier)...)
+	return append(append(append(cancelA(tier), manyA(tier)...), partialA(tier)...), lateCancelA()...)
 }
 
 // errKinds: plain / timeout-kind / wrapped deadline / one common cause for every failure (the last one only for requests of
